@@ -118,7 +118,12 @@ func (x *Explorer) explore(prefix []int, depth int, owned bool) {
 		return
 	}
 	if res.Deadline {
+		// a managed thread blocked on something the runtime does not model (a
+		// channel, a real lock, real I/O): every further execution would hang
+		// the same way, so the exploration of this scenario stops here and the
+		// caller reports a harness error (never a violation)
 		x.Stats.Deadlines++
+		x.Stats.Capped = true
 		return
 	}
 	count := owned || (x.Owned != nil && depth < x.ShardDepth && x.countShared())
